@@ -14,7 +14,7 @@ from .cxx2c import ExtractionError
 
 VERIF = os.path.dirname(os.path.dirname(os.path.abspath(__file__)))
 REPO = os.environ.get('VF_REPO', '/repo')
-OUT = os.path.join(VERIF, 'out')
+OUT = os.environ.get('VF_OUT') or os.path.join(VERIF, 'out')
 PRELUDE = os.path.join(VERIF, 'prelude')
 MEM_LIMIT = 10 * 1024 ** 3
 
